@@ -631,7 +631,13 @@ func (ge *GuardEngine) guardsRec(fn *ssa.Function, env *Env, chain []string, ctx
 		// error-propagating / predicate calls: expand the callee
 		if !g.Weak {
 			if call := propagatingCall(ifi.Cond); call != nil {
-				expand(call, b, nil)
+				// "v, ok := f(); if !ok { reject }": only a rejection on the false result delegates to f's guards
+				if isBoolExtract(ifi.Cond) && g.Op != "false" {
+					call = nil
+				}
+				if call != nil {
+					expand(call, b, nil)
+				}
 			}
 		}
 	}
@@ -699,6 +705,15 @@ func propagatingCall(cond ssa.Value) *ssa.Call {
 		}
 	case *ssa.Call:
 		return x
+	case *ssa.Extract:
+		// v, ok := f(...); if !ok  — the tested value is the last (boolean) result of the call
+		if cc, ok := x.Tuple.(*ssa.Call); ok {
+			if sig := cc.Call.Signature(); sig != nil && x.Index == sig.Results().Len()-1 {
+				if b, ok := sig.Results().At(x.Index).Type().Underlying().(*types.Basic); ok && b.Kind() == types.Bool {
+					return cc
+				}
+			}
+		}
 	case *ssa.BinOp:
 		isNil := func(v ssa.Value) bool { c, ok := v.(*ssa.Const); return ok && c.Value == nil }
 		var o ssa.Value
@@ -832,6 +847,17 @@ func (ge *GuardEngine) CheckReq(c *Ctx, rule string, req GuardReq, guards []Guar
 			cands = append(cands, cand{g, g.Op})
 		} else if req.R != "" && lre.MatchString(g.R) && rre.MatchString(g.L) {
 			cands = append(cands, cand{g, flipOp[g.Op]})
+		} else if len(ge.pv.expansions) > 0 {
+			// the operands may sit behind a small extracted helper: retry with its body in place of the call
+			xl, xr := ge.pv.ExpandAll(g.L, req.L, req.R), ge.pv.ExpandAll(g.R, req.L, req.R)
+			if xl == g.L && xr == g.R {
+				continue
+			}
+			if lre.MatchString(xl) && rre.MatchString(xr) {
+				cands = append(cands, cand{g, g.Op})
+			} else if req.R != "" && lre.MatchString(xr) && rre.MatchString(xl) {
+				cands = append(cands, cand{g, flipOp[g.Op]})
+			}
 		}
 	}
 	if len(cands) == 0 {
@@ -1110,4 +1136,16 @@ func (ge *GuardEngine) bypassPath(fi *fnInfo, g *ssa.BasicBlock, legit map[[2]in
 		}
 	}
 	return ""
+}
+
+func isBoolExtract(v ssa.Value) bool {
+	for {
+		if u, ok := v.(*ssa.UnOp); ok && u.Op == token.NOT {
+			v = u.X
+			continue
+		}
+		break
+	}
+	_, ok := v.(*ssa.Extract)
+	return ok
 }
